@@ -50,6 +50,29 @@ def execute(case):
     return out
 
 
+def cycle_events(only=None):
+    """write/read cycles: a structure built from element symbols (the library supplies the masses) is written as LAMMPS
+    data and loaded again with the default tolerance; one file per table element, plus mixed structures"""
+    from mofun import Atoms
+    from mofun.atomic_masses import ATOMIC_MASSES
+    names = [str(k) for k in ATOMIC_MASSES]
+    groups = [[n] for n in names] + [names[k:k + 7] for k in range(0, len(names), 7)] + [["C", "H", "O", "Zr", "Bi", "Po"], names[::-1][:12]]
+    out = []
+    for els in (groups if only is None else [only]):
+        ev = {"kind": "cycle", "elin": els, "ms": [], "tol": 100000, "els": [], "raised": "no"}
+        try:
+            with contextlib.redirect_stderr(io.StringIO()), contextlib.redirect_stdout(io.StringIO()):
+                a = Atoms(elements=els, positions=[[float(i), 0.0, 0.0] for i in range(len(els))], cell=[[50.0, 0, 0], [0, 50.0, 0], [0, 0, 50.0]])
+                buf = io.StringIO()
+                a.save_lmpdat(buf)
+                b = Atoms.load_lmpdat(io.StringIO(buf.getvalue()))
+            ev["els"] = [str(e) for e in b.atom_type_elements]
+        except Exception as e:
+            ev["els"] = ["cycle-raised:" + type(e).__name__]
+        out.append(ev)
+    return out
+
+
 def run(prop, tier, replay=None):
     out = Outcome(prop, tier)
     g = gen.all_tables()
@@ -57,8 +80,11 @@ def run(prop, tier, replay=None):
     out.rule = ("cases = every state of MC_MassGuess (exhaustive over the mass table: tabulated masses, +-(tol-2u), +-(tol+2u), "
                 "+-tol, midpoints between mass neighbours -+3u, non-atomic masses, mixed lists) x tolerances %s; each run through "
                 "guess_elements_from_masses and load_lmpdat; non-trivial = all" % tols)
+    only_cycle = None
     if replay:
         cases = [json.load(open(replay))["case"]["case"]]
+        if "cycle" in cases[0]:
+            only_cycle, cases = cases[0]["cycle"], []
     else:
         res = run_tlc("MC_MassGuess", cfg(tols, False), workers=8, timeout=1200, extra_modules_dir=g, tag="mcmass")
         if res.error:
@@ -78,6 +104,12 @@ def run(prop, tier, replay=None):
         for ev in execute(c):
             events.append(ev)
             src.append(c)
+    if not replay or only_cycle is not None:
+        for ev in cycle_events(only_cycle):
+            events.append(ev)
+            src.append({"cycle": ev["elin"]})
+    for ev in events:
+        ev.setdefault("elin", [])
     out.evaluations = len(events)
     verdicts = shard_validate("Trace_MassGuess", TRACE_CFG, events, shards=6, workers=1, tag="val-C14", extra=g)
     out.traces = len(events)
@@ -85,10 +117,12 @@ def run(prop, tier, replay=None):
     for ev, c, vd in zip(events, src, verdicts):
         out.case(ev)
         if vd == "ok":
-            out.sample({"masses_micro": ev["ms"], "tol_micro": ev["tol"], "via": ev["kind"], "elements": ev["els"], "raised": ev["raised"]})
+            out.sample({"elements_in": ev["elin"], "masses_micro": ev["ms"], "tol_micro": ev["tol"], "via": ev["kind"], "elements": ev["els"], "raised": ev["raised"]})
             continue
         by[vd] = by.get(vd, 0) + 1
-        out.violation({"op": ev["kind"], "clause": vd, "flags": [], "ms": ev["ms"], "tol": ev["tol"], "els": ev["els"]},
+        if vd.startswith("blocked"):
+            continue
+        out.violation({"op": ev["kind"], "clause": vd, "flags": [], "ms": ev["ms"], "elin": ev["elin"], "tol": ev["tol"], "els": ev["els"]},
                       {"case": c, "observed": ev})
     out.notes["rejected_by_clause"] = by
     out.assumptions = ["mass table read from /repo/mofun/atomic_masses.py at run time (the property is about that table)",
